@@ -3,6 +3,7 @@
   PROPERTY THEOREMS ONLY (the combinatorial core: lattice translations act freely, p2s_map).
 -/
 import SymfcModel.Lemmas.Cell
+import SymfcModel.Lemmas.SgPerm
 namespace Symfc.C14
 open Symfc Symfc.Cell
 
@@ -42,5 +43,51 @@ theorem p2s_map_is_one_lowest_atom_per_orbit (c : Cell) (hwf : c.wf = true) :
     (∀ a, a ∈ c.indepAtoms → ∀ l, l < c.nlp → a ≤ c.img l a) ∧
     c.N = c.indepAtoms.length * c.nlp :=
   indepAtoms_spec c hwf
+
+/-- C14.c (exact-arithmetic core of the atom matching): coordinates are reduced to the representative in
+    [-1/2, 1/2) of their class modulo the lattice, independent of integer offsets -/
+theorem wrapped_coordinate_is_the_class_representative (S x k : Int) (hS : 0 < S) (hev : S % 2 = 0) :
+    (-(S / 2) ≤ wrapHalf S x ∧ wrapHalf S x < S / 2) ∧ wrapHalf S (x + k * S) = wrapHalf S x ∧
+    (wrapHalf S x - x) % S = 0 :=
+  ⟨wrapHalf_range S x hS hev, wrapHalf_add_mul S x k, wrapHalf_sub_emod S x⟩
+
+/-- C14.c FAST PATH, soundness: whenever the sort-and-compare fast path of the pure-translation loop accepts, the
+    permutation it returns is a bijection of the atoms and sends atom i to THE atom whose position equals
+    x_i + t modulo the lattice (unique because rounded positions are pairwise distinct). -/
+theorem fast_path_permutation_is_the_translation (S : Int) (ps : List (List Int)) (t : List Int) (tp : List Nat)
+    (hd : positionsDistinct S ps = true) (h : fastTransPerm S ps t = some tp) :
+    (tp.length = ps.length ∧ tp.Perm (List.range ps.length)) ∧
+    (∀ i, i < ps.length →
+      roundPos S (ps.getD (tp.getD i 0) []) = roundPos S (((ps.getD i []).zip t).map (fun (a, b) => a + b))) ∧
+    (∀ i, i < ps.length → ∀ j, j < ps.length →
+      roundPos S (ps.getD j []) = roundPos S (((ps.getD i []).zip t).map (fun (a, b) => a + b)) → j = tp.getD i 0) :=
+  ⟨fastTransPerm_perm S ps t tp h, fun i hi => fastTransPerm_spec S ps t tp h i hi,
+   fun i hi j hj hij => fastTransPerm_unique S ps t tp hd h i hi j hj hij⟩
+
+/-- C14.c FAST PATH, completeness: if the translation IS a symmetry of the set of positions (some permutation σ
+    realises it) the fast path accepts and returns exactly σ — the distance fall-back is needed only for inputs that
+    are not exactly periodic at the chosen number of decimals. -/
+theorem fast_path_accepts_every_exact_symmetry (S : Int) (ps : List (List Int)) (t : List Int) (σ : List Nat)
+    (hd : positionsDistinct S ps = true) (hσ : σ.Perm (List.range ps.length))
+    (hsym : ∀ i, i < ps.length →
+      roundPos S (ps.getD (σ.getD i 0) []) = roundPos S (((ps.getD i []).zip t).map (fun (a, b) => a + b))) :
+    fastTransPerm S ps t = some σ :=
+  fastTransPerm_complete S ps t σ hd hσ hsym
+
+/-- C14.b COMPOSITION: `out = trans_perms[l][perm_u]` represents "first the operation of the unique rotation, then the
+    lattice translation": if `perm` sends atom j to the atom located at g(x_j) and `tp` sends atom k to the atom at
+    τ(x_k), the composed array sends atom j to the atom at τ(g(x_j)); and it is again a permutation. -/
+theorem composed_permutation_represents_the_composed_operation {α : Type} (loc : Nat → α) (g τ : α → α)
+    (tp perm : List Nat) (N : Nat) (hperm : perm.length = N) (htp : tp.length = N)
+    (hrange : ∀ j, j < N → perm.getD j 0 < N)
+    (hg : ∀ j, j < N → loc (perm.getD j 0) = g (loc j))
+    (hτ : ∀ j, j < N → loc (tp.getD j 0) = τ (loc j)) :
+    ∀ j, j < N → loc ((composeOut tp perm).getD j 0) = τ (g (loc j)) :=
+  composeOut_represents loc g τ tp perm N hperm htp hrange hg hτ
+
+theorem composed_permutation_is_a_permutation (tp perm : List Nat) (N : Nat)
+    (htp : tp.Perm (List.range N)) (hperm : perm.Perm (List.range N)) :
+    (composeOut tp perm).Perm (List.range N) :=
+  composeOut_perm tp perm N htp hperm
 
 end Symfc.C14
